@@ -158,15 +158,22 @@ def controls_for_property(prop: str, src_root: str, base_keys: set, jobs: int = 
                 continue
         tasks.append((c["name"], c["kind"], c["edits"], [prop], expect, src_root, len(c.get("props", [])) if c["kind"] == "positive" else 0))
     # stored behaviour-preserving refactorings written against this property (sub-agents, see DESIGN 9.8): no new finding
+    def replayed(d) -> bool:
+        # a stored change whose recorded outcome is "not decided here" (with the reason) is not replayed as a control
+        try:
+            return "replay_expect" not in json.loads((d / "meta.json").read_text())
+        except Exception:
+            return True
+
     for nd in sorted((ROOT / "neutral").glob(f"{prop}-*")):
         pf = nd / "patch.diff"
-        if pf.exists():
+        if pf.exists() and replayed(nd):
             tasks.append((f"refactoring {nd.name}", "negative", str(pf), [prop], [], src_root, 0))
     # stored seeded defects written against this property: a new finding of this property's rules
     num = str(int(prop[1:]))
     for sd in sorted((ROOT / "seeded").glob(f"{prop}-*")):
         pf = sd / "patch.diff"
-        if pf.exists():
+        if pf.exists() and replayed(sd):
             tasks.append((f"seeded {sd.name}", "positive", str(pf), [prop], ["R" + num + "."], src_root, 1))
     if jobs > 1 and len(tasks) > 1:
         with ProcessPoolExecutor(max_workers=jobs) as ex:
